@@ -71,6 +71,27 @@
 (*                 (TlsAuth!BotchedReload): nothing changes - later         *)
 (*                 handshakes see the identity installed last, and the next *)
 (*                 reload takes effect like any other.                      *)
+(*  RETURNING CLIENTS THAT RESUME.  Every connect line (step / rstep) says    *)
+(*                 how the client was made and what it observed of           *)
+(*                 resumption: keep (a raw rustls client whose ClientConfig, *)
+(*                 i.e. its resumption store, is kept for the whole script,  *)
+(*                 one per client certificate; FALSE = the application's     *)
+(*                 tls_connect, which keeps nothing), tls (the protocol      *)
+(*                 version that client speaks), offered (its store handed    *)
+(*                 out a ticket / session for this ClientHello), stored (how *)
+(*                 many tickets / sessions this connect put into the store), *)
+(*                 resumed (rustls's handshake_kind() of the client end),    *)
+(*                 srv_resumed (of the server end, duplex only).  The        *)
+(*                 machine's `tickets` follow the log: after a line with     *)
+(*                 stored > 0 the client holds a ticket of the identity it   *)
+(*                 saw and of the client-CA generation in force.  The line   *)
+(*                 is judged like any other connect - the configuration in   *)
+(*                 force decides who gets in and which identity is seen,     *)
+(*                 whether or not a ticket was offered - and moreover a      *)
+(*                 handshake may BE a resumption only if the client holds a  *)
+(*                 ticket of the configuration in force (TlsAuth!Usable):    *)
+(*                 resumption within one generation is accepted, one across  *)
+(*                 a reload is not.                                          *)
 (*  ev = "cscript" / "cstep"   the client-side machine (c): one client      *)
 (*                 process, its roots file replaced in place (op "rotate"), *)
 (*                 connections (op "connect") to a server whose certificate *)
@@ -161,6 +182,27 @@ RStepOps == StepOps \cup {"botch"}
 ClientCN(cc) == "cli-" \o cc
 CaCN(x) == IF x = "otherCA" THEN "other-ca" ELSE IF x = "trustedCA" THEN "trusted-ca" ELSE "trusted-ca-" \o x
 
+\* ---- resumption fields of a connect line ----
+TlsVersions == {"1.3", "1.2"}
+ProtoOf(v) == IF v = "1.3" THEN "Some(TLSv1_3)" ELSE "Some(TLSv1_2)"
+\* well formed and consistent with the harness's own bookkeeping (nothing of this is a judgement of the code under test:
+\* a client that keeps nothing offers nothing, a client can only offer what an earlier connect of the script stored, a
+\* handshake that was a resumption offered something, the client speaks the version the script says)
+ResumeFields(r) ==
+  /\ r.keep \in BOOLEAN /\ r.offered \in BOOLEAN /\ r.resumed \in BOOLEAN /\ r.stored \in Nat /\ r.tls \in TlsVersions
+  /\ ~r.keep => (~r.offered /\ r.stored = 0 /\ r.tls = "1.3")
+  /\ r.offered => Held(r.cc) # {}
+  /\ r.resumed => r.offered
+  /\ r.client_hs = "ok" => r.proto = ProtoOf(r.tls)
+\* the property allows the handshake of `cc` that starts now to be a resumption: the client holds a ticket issued by the
+\* configuration in force
+MayResume(cc) == Usable(Held(cc)) # {}
+\* signature of a resumption the property does not allow (a ticket of a replaced configuration was honoured), by what it led to
+ResumeSig(r, o) ==
+  IF o = "ok" /\ ~ServerAccepts(HandshakeCellG(r.cc, wantCA, dueGen)) THEN "resumption_bypasses_reloaded_client_ca"
+  ELSE IF r.client_hs = "ok" /\ ~ShowsIdentity(r, live) THEN "resumption_shows_retired_identity"
+  ELSE "ticket_of_retired_configuration_honoured"
+
 \* The server's judgement of a client presenting cc, observed as outcome class o, against what the configuration read
 \* at the last reload demands: "" = as configured, else the signature of the deviation.
 JudgeSig(o, cc) ==
@@ -191,8 +233,13 @@ MatchStep(r) ==
          \* identity installed last (a script without rotation presents RightCert: always admitted)
          /\ r.cc \in Presentable
          /\ r.mtls = (wantCA = "configured") /\ ConfigKept /\ CAFollows
+         /\ ResumeFields(r)
+         \* a resumption only with a ticket of the configuration in force; both ends agree on what the handshake was
+         /\ r.resumed => MayResume(r.cc)
+         /\ (r.client_hs = "ok" /\ r.server_hs = "ok") => r.srv_resumed = r.resumed
          /\ LET o == Obs(r)
-            IN /\ o \in HandshakeOutcome(r.cc)
+            IN \* (whatever was offered: OutcomeWith(cc, offer) = HandshakeOutcome(cc) for the machine the property demands)
+               /\ o \in HandshakeOutcome(r.cc)
                /\ r.conn = (IF Admitted(r.cc) THEN Len(conns) + 1 ELSE 0)
                /\ o = "ok" => r.client_hs = "ok" /\ r.server_hs = "ok" /\ RoundTrips(r)
                /\ o # "ok" => r.srv_data = "" /\ r.cli_data = ""
@@ -220,10 +267,12 @@ SigStep(r) ==
   ELSE IF r.op = "rotate" THEN "other:malformed_line"
   ELSE IF "panic" \in {r.client_hs, r.server_hs, r.client_rt, r.server_rt} THEN "panic:" \o r.op
   ELSE IF r.op = "connect"
-  THEN IF r.cc \notin Presentable \/ r.mtls # (wantCA = "configured") THEN "other:malformed_line"
+  THEN IF r.cc \notin Presentable \/ r.mtls # (wantCA = "configured") \/ ~ResumeFields(r) THEN "other:malformed_line"
        ELSE LET o == Obs(r)
                 j == JudgeSig(o, r.cc)
-            IN IF j # "" THEN j
+            IN IF r.resumed /\ ~MayResume(r.cc) THEN ResumeSig(r, o)
+               ELSE IF j # "" THEN j
+               ELSE IF r.client_hs = "ok" /\ r.server_hs = "ok" /\ r.srv_resumed # r.resumed THEN "ends_disagree_on_resumption"
                ELSE IF o = "clientRejects" THEN "client_rejects_valid_server_cert"
                ELSE IF o = "undetermined" \/ (o = "ok" /\ ~(r.client_hs = "ok" /\ r.server_hs = "ok" /\ RoundTrips(r)))
                THEN "handshake_fails_after_reload"
@@ -259,6 +308,9 @@ MatchRStep(r) ==
          \* authenticated exactly as configured, whatever number of reloads happened, against the CA bundle that was at
          \* the configured path at the last reload
          /\ ConfigKept /\ CAFollows
+         /\ ResumeFields(r)
+         \* a resumption only with a ticket of the configuration in force
+         /\ r.resumed => MayResume(r.cc)
          /\ LET o == RObs(r)
             IN /\ o \in HandshakeOutcome(r.cc)
                /\ r.conn = (IF Admitted(r.cc) THEN Len(conns) + 1 ELSE 0)
@@ -300,10 +352,11 @@ SigRStep(r) ==
   ELSE IF r.op \in {"rotate", "botch"} THEN "other:malformed_line"
   ELSE IF "panic" \in {r.client_hs, r.client_rt} THEN "panic:" \o r.op
   ELSE IF r.op = "connect"
-  THEN IF r.cc \notin Presentable \/ r.mtls # (wantCA = "configured") THEN "other:malformed_line"
+  THEN IF r.cc \notin Presentable \/ r.mtls # (wantCA = "configured") \/ ~ResumeFields(r) THEN "other:malformed_line"
        ELSE LET o == RObs(r)
                 j == JudgeSig(o, r.cc)
-            IN IF j # "" THEN j
+            IN IF r.resumed /\ ~MayResume(r.cc) THEN ResumeSig(r, o)
+               ELSE IF j # "" THEN j
                ELSE IF o = "clientRejects" THEN "client_rejects_valid_server_cert"
                ELSE IF o = "undetermined" THEN "other:undetermined_failure"
                ELSE IF r.client_hs = "ok" /\ ~ShowsIdentity(r, live) THEN "new_handshake_sees_stale_identity"
@@ -359,9 +412,16 @@ SigCStep(r) ==
 \* identity it actually saw, so that later uses of it are judged by "keeps seeing the identity it handshook
 \* with" and one defect does not cascade into a second signature.
 ObsVer(r) == IF r.seen_serial - 100 \in 0 .. identityVersion THEN r.seen_serial - 100 ELSE live
-Pinned(r) ==
-  /\ conns' = Append(conns, [born |-> identityVersion, ver |-> ObsVer(r), cfg |-> ObsVer(r), alive |-> TRUE, cc |-> r.cc,
-                             gen |-> dueGen])
+\* A connect line.  For a matched line this is TlsAuth!ConnectWith(cc, offer, keep) - the full handshake, or the
+\* resumption with a ticket of the configuration in force, which leaves the same state behind.  The tickets follow the
+\* LOG (what the client's store really took in), also on an unmatched line, so that what a later line offers is known: a
+\* ticket stored by this connect carries the identity the client saw and the client-CA generation in force.
+ConnectLine(r) ==
+  /\ conns' = IF Admitted(r.cc)
+              THEN Append(conns, [born |-> identityVersion, ver |-> ObsVer(r), cfg |-> ObsVer(r), alive |-> TRUE, cc |-> r.cc,
+                                  gen |-> dueGen])
+              ELSE conns
+  /\ tickets' = IF ResumeFields(r) /\ r.keep /\ r.stored > 0 THEN tickets \cup {[cc |-> r.cc, ver |-> ObsVer(r), gen |-> liveGen]} ELSE tickets
   /\ UNCHANGED <<identityVersion, live, wantCA, liveCA, wantGen, liveGen, dueGen, botched>>
   /\ UNCHANGED cvars
 Advance(r) ==
@@ -369,12 +429,13 @@ Advance(r) ==
          /\ identityVersion' = 0 /\ live' = 0 /\ conns' = <<>>
          /\ wantCA' = CAOf(r.mtls) /\ liveCA' = CAOf(r.mtls)
          /\ wantGen' = 0 /\ liveGen' = 0 /\ dueGen' = 0 /\ botched' = 0
+         \* the returning clients of a script are made for that script: nobody holds a ticket
+         /\ tickets' = {}
          /\ UNCHANGED cvars
     [] r.ev = "cscript" ->
          /\ rootsGen' = 0 /\ rootsRead' = {} /\ cseen' = <<>>
          /\ UNCHANGED svars
-    [] r.ev \in {"step", "rstep"} /\ r.op = "connect" /\ r.cc \in Presentable ->
-         IF ObsVer(r) = live \/ ~Admitted(r.cc) THEN ConnectAs(r.cc) ELSE Pinned(r)
+    [] r.ev \in {"step", "rstep"} /\ r.op = "connect" /\ r.cc \in Presentable -> ConnectLine(r)
     [] r.ev \in {"step", "rstep"} /\ r.op = "reload" -> Reload
     [] r.ev \in {"step", "rstep"} /\ r.op = "rotate" /\ wantCA = "configured" -> Rotate
     [] r.ev = "rstep" /\ r.op = "botch" -> BotchedReload
@@ -401,7 +462,8 @@ Sig(r) ==
     [] OTHER -> "other:malformed_line"
 
 ConnectView(r, o) ==
-  [outcome |-> HandshakeOutcome(r.cc), observed |-> o, serverClientCA |-> wantCA, reloadsSoFar |-> identityVersion,
+  [outcome |-> HandshakeOutcome(r.cc), observed |-> o, clientHoldsTicket |-> Held(r.cc) # {}, mayBeResumption |-> MayResume(r.cc),
+   serverClientCA |-> wantCA, reloadsSoFar |-> identityVersion,
    caGenerationAtPath |-> wantGen, caGenerationAtLastReload |-> dueGen, failedReloadsSoFar |-> botched,
    identity |-> live, cn |-> IdentCN(live), conn |-> (IF Admitted(r.cc) THEN Len(conns) + 1 ELSE 0)]
 
